@@ -50,18 +50,30 @@ def boom_unpicklable(x):
 @task(namespace="c32")
 def shaped(x):
     return {"p": P(x, [x, x]), "d": D(x, (x,)), "s": {1, 2}, "n": None}
+
+
+# tasks of another team: same short names, other namespace, other behaviour
+@task(name="add", namespace="c32b")
+def add_b(a, b=3):
+    return mix("add-b", b, a)
+
+
+@task(name="echo", namespace="c32b")
+def echo_b(x, *rest, **kw):
+    return [list(rest), x]
 '''
 
 
 class FakeJob:
-    def __init__(self, task, args, kwargs, eval_hash):
+    def __init__(self, task, args, kwargs, eval_hash, options=None):
         self.task = task
         self.args = (args, kwargs)
         self.eval_hash = eval_hash
         self.id = "job-" + eval_hash
+        self.options = dict(options or {})
 
     def get_options(self):
-        return {}
+        return dict(self.options)
 
 
 def gen_arg(ch: Choices):
@@ -87,7 +99,9 @@ class C32(Check):
         "a 'scheduler node' prepares generated jobs (tasks with positional / keyword / default / "
         "variadic arguments, raising tasks, a task raising an unpicklable error) for remote "
         "execution in single form (get_oneshot_command writes the pickled input) and in array "
-        "form (write_array_job_scratch_files); 'worker nodes' run the real "
+        "form (write_array_job_scratch_files; in one mode the arrays are the groups the real "
+        "JobArrayer forms from interleaved jobs of several tasks, two pairs of which share their "
+        "short name across namespaces, and option sets); 'worker nodes' run the real "
         "RedunClient.oneshot_command in-process with the array index environment variable, in a "
         "simulator-chosen order, some of them twice (retry) and some after a stale output or "
         "error file of another attempt exists; results are read back with parse_job_result / "
@@ -105,7 +119,8 @@ class C32(Check):
                        "AWSBatchExecutor.gather_inflight_jobs"]
     COMPONENTS_STUB = ["Job objects: minimal fakes", "the remote service itself (no Batch / K8S)"]
     EXPECTED_PROBES = ["array_elements_run", "single_jobs_run", "retries", "errors_round_tripped",
-                       "job_names_checked", "reunited_jobs"]
+                       "job_names_checked", "reunited_jobs", "arrays_formed_by_arrayer",
+                       "arrays_beside_same_named_task"]
     QUICK_SECONDS = 25.0
 
     def setup(self) -> None:
@@ -218,7 +233,7 @@ class C32(Check):
                 return False
             return True
 
-        mode = ch.choice(4, "mode")
+        mode = ch.choice(5, "mode")
         if mode == 0:
             # ---- single jobs -------------------------------------------------------
             jobs = [make_job(i) for i in range(1 + ch.choice(3, "njobs"))]
@@ -270,6 +285,66 @@ class C32(Check):
             for job in jobs:
                 if not compare(job, "array"):
                     break
+        elif mode == 4:
+            # ---- arrays as the real JobArrayer forms them: jobs of several tasks (two pairs
+            # share their short name across namespaces) and option sets arrive interleaved; the
+            # arrayer is flushed at seeded points; every group it hands over is submitted the way
+            # the executors do (one command built from the group's first job) ------------------
+            from redun.job_array import JobArrayer
+
+            groups: list = []
+            errors: list = []
+            arrayer = JobArrayer(submit_jobs=lambda js: groups.append(list(js)),
+                                 on_error=errors.append, submit_interval=3600.0, stale_time=-1.0,
+                                 min_array_size=2, max_array_size=2 + ch.choice(4, "max-array"))
+            arrayer.start = lambda: None  # (the simulator plays the monitor thread)
+
+            def flush():
+                for d in arrayer.get_stale_descrs():
+                    arrayer.submit_pending_jobs(d)
+
+            twins = [self.mod.add, self.mod.add_b, self.mod.echo, self.mod.echo_b]
+            n = 3 + ch.choice(6, "njobs")
+            jobs = []
+            for i in range(n):
+                job = make_job(i)
+                if ch.coin(0.7, "twin-task"):
+                    t = twins[ch.choice(4, "which-twin")]
+                    job = FakeJob(t, (gen_arg(ch), gen_arg(ch)), {}, job.eval_hash)
+                if ch.coin(0.3, "with-options"):
+                    job.options = {"memory": 1 + ch.choice(2, "memory")}
+                jobs.append(job)
+                arrayer.add_job(job)
+                if ch.coin(0.2, "flush"):
+                    flush()
+            while arrayer.num_pending and len(groups) < 50:
+                flush()
+            placed = sorted(j.eval_hash for g in groups for j in g)
+            if placed != sorted(j.eval_hash for j in jobs) or errors:
+                out.violate("C32.arrayer_conserves_jobs", "lost-or-duplicated" if not errors else "error",
+                            {"jobs": len(jobs), "placed": len(placed), "errors": repr(errors)[:200]})
+            for gi, group in enumerate(groups):
+                if len(group) == 1:
+                    job = group[0]
+                    run_worker(get_oneshot_command(scratch, job, job.task, args=job.args[0],
+                                                   kwargs=job.args[1]))
+                    out.probe("single_jobs_run")
+                    log.append(("arrayer-single", job.task.fullname))
+                else:
+                    array_uuid = f"grp{gi}x{ch.choice(1000, 'uuid')}"
+                    write_array_job_scratch_files(group, scratch, array_uuid, include_eval_hash=True)
+                    cmd = get_oneshot_command(scratch, group[0], group[0].task, array_uuid=array_uuid)
+                    for i in ch.shuffle(list(range(len(group))), "element-order"):
+                        run_worker(cmd, env_index=i)
+                        out.probe("array_elements_run")
+                    out.probe("arrays_formed_by_arrayer")
+                    out.nontrivial = True
+                    if len({j.task.name for j in group}) == 1 and \
+                            len({j.task.fullname for j in jobs if j.task.name == group[0].task.name}) > 1:
+                        out.probe("arrays_beside_same_named_task")
+                    log.append(("arrayer-array", [j.task.fullname for j in group]))
+                if not all(compare(job, "arrayer") for job in group):
+                    break
         elif mode == 3:
             # ---- reuniting with in-flight jobs: the restarted scheduler node lists what the
             # service still runs and must map every in-flight element back to its eval hash ------
@@ -292,7 +367,7 @@ class C32(Check):
         out.steps = len(log)
         out.key = hashlib.sha1(repr(log).encode()).hexdigest()[:16] + str(mode)
         out.digest = out.key
-        out.sample = {"mode": ["single", "array", "names", "reunite"][mode], "log": log[:12]}
+        out.sample = {"mode": ["single", "array", "names", "reunite", "arrayer"][mode], "log": log[:12]}
         return out
 
     def reunite(self, ch: Choices, out: RunOutcome, scratch: str, make_job, log: list) -> None:
